@@ -11,10 +11,13 @@ PROP_FILE = "Properties/C13.v"
 CORPUS = core.VERIF / "harness" / "corpus" / "C13"
 
 TRUSTED = [
-    "translator/c13.py (TYPE_LISTs, guard sequences of ArrayBase._validate / Photon.array / Photon.array_3d setters, "
-    "Detector bucket setters, shapes of Photon.__iadd__/__add__/__eq__ and ArrayBase.__iadd__/__add__/__eq__, "
-    "array_2d delegation -> Gen_C13.src_tables; fails closed on any other shape; TYPE_LISTs cross-checked "
-    "against the imported classes)",
+    "translator/c13.py (TYPE_LISTs, guard sequences of the ArrayBase.array setter with _validate followed / Photon.array / "
+    "Photon.array_3d setters, Detector bucket setters, shapes of Photon.__iadd__/__add__/__eq__ and "
+    "ArrayBase.__iadd__/__add__/__eq__, array_2d delegation -> Gen_C13.src_tables; fails closed on any other shape; "
+    "TYPE_LISTs cross-checked against the imported classes) reading every function through translator/c13_norm.py "
+    "(private helpers followed, cheap local aliases and module-level literals substituted where nothing in between can "
+    "change them, control flow expanded to a decision tree and rendered canonically, messages / annotations / logging "
+    "dropped; trusted to preserve behaviour; its self-test translator/c13_norm_test.py runs on every check)",
     "numpy's in-place output-casting rule is generated data: can_cast(result_type(dst, src), dst, 'same_kind') over "
     "15 dtypes, cross-checked by executing `dst += src` in the installed numpy",
     "correspondence harness: harness/props/c13.py generators, harness/drivers/c13.py (builds the arrays, applies "
@@ -1221,6 +1224,14 @@ def translate_leg(ctx: Ctx) -> dict:
     from translator import c13 as tr
 
     gen = {}
+    try:
+        from translator import c13_norm_test
+
+        bad = c13_norm_test.run()          # the normalising front end still separates what it must separate
+    except Exception as ex:  # noqa: BLE001
+        bad = [f"self-test crashed: {type(ex).__name__}: {ex}"]
+    if bad:
+        ctx.broken.append(Broken("translation", "translator/c13_norm.py self-test", "\n".join(bad)[:1500]))
     try:
         gen["Gen_C13.v"] = tr.translate(ctx.repo)
     except core.TranslationError as ex:
